@@ -14,7 +14,7 @@ from .common import *   # noqa: F401,F403
 from pyvc.loops import LoopSpec
 from pyvc.core import Builtin
 from pyvc.values import FmtStr, str_chars
-from . import frames, C05, C08, C16
+from . import frames, C05, C08, C11, C16
 
 E = 'propka.energy.'
 
@@ -152,7 +152,9 @@ def run(pr, repo):
                       'only in the desolvation exclusion and in every label) - its obligation is refuted on every run and reported as '
                       'KNOWN-FINDING, so discharged < obligations')
     pr.parallel([(task_same_residue, ()), (task_eq_label, ()), (task_sort_key, ()), (C05.task_set_determinants, ()),
-                 (C05.task_iterative, ()), (C08.task_average_twins, ())])
+                 (C05.task_iterative, ()), (C08.task_average_twins, ()),
+                 # bonds and disulfide flags are decided by elements and distance only - residue labels are symbolic there
+                 (C11.task_boxes_pair, ('S', 'S', False, (0,))), (C11.task_boxes_pair, ('C', 'N', False, (0,)))])
     for f, allowed in READERS.items():
         frames.clause(pr, repo, 'readers of .%s are the declared ones' % f, f, 'readers', allowed)
     pr.assumptions += ['atom order (changed by relabelling through the sort key) only permutes commutative sums: A-REAL',
